@@ -458,6 +458,9 @@ func (w *World) recoveryPhase(f *Node) {
 	budget := 6000
 	for i := 0; i < budget && w.viol == nil; i++ {
 		w.step++
+		if w.timeUp {
+			return
+		}
 		if len(f.obs.commits) > startCommits && f.height() > startH {
 			w.probe("recovered-and-committed")
 			return
